@@ -50,9 +50,57 @@ def is_subsequence(small, big):
     return all(any(x == y for y in it) for x in small)
 
 
+POLICY_PEER = {'banner': 'SSH-2.0-OpenSSH_9.3', 'kex': ['curve25519-sha256', 'diffie-hellman-group-exchange-sha256'], 'key': ['rsa-sha2-512', 'ssh-ed25519'], 'enc': ['aes256-gcm@openssh.com', 'aes128-ctr'], 'mac': ['hmac-sha2-256-etm@openssh.com'],
+               'hostkeys': dict({k: {'t': 'rsa', 'bits': 3072} for k in ('ssh-rsa', 'rsa-sha2-256', 'rsa-sha2-512')}, **{'ssh-ed25519': {'t': 'ed25519'}}), 'moduli': [3072], 'gex_style': 'roundup'}
+
+
+def eval_policy(case):
+    """Policy audits: the verdict and the exit status are the same under every output option, and with -j / -jj stdout
+    is one JSON document (whatever the policy file makes the tool say on the side)."""
+    import os
+    from checks import c06
+    pol = {'kex': POLICY_PEER['kex'], 'key': POLICY_PEER['key'], 'enc': POLICY_PEER['enc'], 'mac': POLICY_PEER['mac'] if not case['drift'] else ['hmac-sha2-512-etm@openssh.com'],
+           'hks': {'rsa-sha2-512': {'hostkey_size': case['rsa']}, 'ssh-ed25519': {'hostkey_size': 256}}, 'dh': {'diffie-hellman-group-exchange-sha256': case['dh']}, 'larger': case['larger'], 'legacy': case['legacy']}
+    path = drive.tmpfile(c06.policy_text(pol))
+    fails, seen = [], {}
+    try:
+        for name, opts in (('text', ['-n']), ('colour', []), ('batch', ['-b']), ('verbose', ['-n', '-v']), ('level', ['-n', '-l', 'fail']), ('json', ['-j']), ('json-indent', ['-jj']), ('json-v', ['-j', '-v']), ('json-level', ['-j', '-l', 'fail'])):
+            net = fakenet.FakeNet()
+            net.add('h', 22, fakenet.Server(POLICY_PEER))
+            r = drive.run_cli(opts + ['-P', path, '--skip-rate-test', 'h'], net)
+            if r.exc or r.hang:
+                fails.append([drive.crash_sig(r) if r.exc else 'hang', r.brief()])
+                continue
+            if name.startswith('json'):
+                try:
+                    d = json.loads(r.out)
+                except ValueError:
+                    fails.append(['policy-json-stdout-not-one-document', '%s, policy %s: %r' % (name, 'older directives' if case['legacy'] else 'current syntax', r.out[:200])])
+                    continue
+                seen[name] = (r.code, d.get('passed'), tuple(sorted(e['mismatched_field'] for e in d.get('errors', []))), json.dumps(d, sort_keys=True))
+            else:
+                pr = report.policy_result(r.out)
+                seen[name] = (r.code, pr['passed'], tuple(sorted(pr['error_fields'])), None)
+    finally:
+        os.unlink(path)
+    if 'level' in seen:
+        # a minimum level hides the lines below it (the verdict line of a passing audit among them): only the status is comparable
+        lv = seen.pop('level')
+        if seen and lv[0] != next(iter(seen.values()))[0]:
+            fails.append(['policy-verdict-depends-on-output-option', 'exit %d with -l fail, %d without' % (lv[0], next(iter(seen.values()))[0])])
+    if len({v[:3] for v in seen.values()}) > 1:
+        fails.append(['policy-verdict-depends-on-output-option', repr({k: v[:3] for k, v in seen.items()})])
+    docs = {v[3] for k, v in seen.items() if v[3] is not None}
+    if len(docs) > 1:
+        fails.append(['policy-json-documents-differ', repr(sorted(docs))[:400]])
+    return mkres(case, nt=True, classes=['policy-audit', 'older-directives' if case['legacy'] else 'current-syntax', 'drift' if case['drift'] else 'match'], fails=fails)
+
+
 def eval_case(case):
     if case['kind'] == 'subproc':
         return eval_subproc(case)
+    if case['kind'] == 'policy':
+        return eval_policy(case)
     lists, role = case['lists'], case['role']
     spec = {'banner': case.get('banner', 'SSH-2.0-OpenSSH_8.4p1 Debian-5'), 'kex': lists['kex'], 'key': lists['key'], 'enc': lists['enc'], 'mac': lists['mac']}
     fails = []
@@ -247,7 +295,9 @@ def run(ctx):
             lists['key'] = lists['key'] + ['zz-hostkey']
         argv = [['-n'], ['-n', '-j'], ['-n', '-v'], ['-b'], ['-jj']][i % 5]
         sub.append({'kind': 'subproc', 'lists': {c: list(dict.fromkeys(l)) for c, l in lists.items()}, 'argv': argv, 'hashseeds': [0, 1, 2, 3, 4, 12345]})
+    pc = [{'kind': 'policy', 'legacy': lg, 'larger': la, 'drift': dr, 'rsa': rsa, 'dh': dh} for lg in (False, True) for la in (False, True) for dr in (False, True) for rsa in (3072, 4096, 2048) for dh in (3072, 2048)]
+    ctx.map(pc)
     ctx.map(sub, chunk=1)
     ctx.note(option_sets_per_peer=len(TEXT_SETS) + len(JSON_SETS), traces_validated_against_impl=len(sub), subprocess_runs=len(sub) * 6)
-    return ctx.finish('exploration', 'Hypothesis peers covering every severity mix (fail / warn / clean / unknown / gss names, both roles), each audited under all 24 text option sets (-b, -v, -n, -l) and 12 JSON option sets (-j/-jj, -v, -l); engine-B sample: the real process under PYTHONHASHSEED 0/1/2/3/4/12345 with probes answered (peers with several Terrapin-class algorithms, several unknown names, one unknown name in two categories); non-trivial = peer with >= 2 severities',
+    return ctx.finish('exploration', 'Hypothesis peers covering every severity mix (fail / warn / clean / unknown / gss names, both roles), each audited under all 24 text option sets (-b, -v, -n, -l) and 12 JSON option sets (-j/-jj, -v, -l); engine-B sample: the real process under PYTHONHASHSEED 0/1/2/3/4/12345 with probes answered (peers with several Terrapin-class algorithms, several unknown names, one unknown name in two categories); policy audits (current and older size directives, matching and drifting) under 9 option sets; non-trivial = peer with >= 2 severities, or a policy audit',
                       assumptions=['recommendation section is sorted on the coloured strings, so colour/no-colour are compared as multisets of lines', 'engine A = engine B byte for byte on the sampled cases (checked, disagreement is a harness error)'])
